@@ -3,6 +3,16 @@ Helper lemmas for C20 (`to_networkx` / `from_networkx` round trip): graph primit
 invariant, the transition pass.
 -/
 import Pfl.Model.Networkx
+
+namespace Pfl.Nx
+
+/-- a graph in the format written before the attribute `initial_stack` existed: the same graph without
+that attribute on any node -/
+def Graph.eraseStack {L : Type} (g : Graph L) : Graph L :=
+  { g with nodes := g.nodes.map fun e => (e.1, { e.2 with initialStack := none }) }
+
+end Pfl.Nx
+
 namespace Pfl.Nx.Lem
 open Pfl.Nx
 variable {L : Type}
@@ -136,15 +146,17 @@ theorem Inv.addState {qs : List Val} {g : Graph L} (h : Inv sflag fflag qs g) (q
     · exact Or.inr rfl
     · exact Or.inl (h.nodes n hn)
 
-theorem Inv.addLabel {qs : List Val} {g : Graph L} (h : Inv sflag fflag qs g) (n : Val) (x : Val) :
-    Inv sflag fflag qs (g.addNode n { label := some x }) := by
+/-- a node update that sets neither `is_start` nor `is_final` -/
+theorem Inv.addDeco {qs : List Val} {g : Graph L} (h : Inv sflag fflag qs g) (n : Val) (d : Attrs)
+    (hs : d.isStart = none) (hf : d.isFinal = none) :
+    Inv sflag fflag qs (g.addNode n d) := by
   refine ⟨?_, ?_, ?_, ?_⟩
   · rw [addNode_edges]; exact h.edges
   · intro m a hm hq
     rcases mem_addNode hm with ⟨hne, hm⟩ | ⟨rfl, hb | hb⟩
     · exact h.attrsIn m a hm hq
     · obtain ⟨b0, hb0, rfl⟩ := hb
-      simpa [Attrs.update] using h.attrsIn m b0 hb0 hq
+      simpa [Attrs.update, hs, hf] using h.attrsIn m b0 hb0 hq
     · have := h.nodes m hq
       rw [hb.1] at this
       cases this
@@ -152,12 +164,16 @@ theorem Inv.addLabel {qs : List Val} {g : Graph L} (h : Inv sflag fflag qs g) (n
     rcases mem_addNode hm with ⟨hne, hm⟩ | ⟨rfl, hb | hb⟩
     · exact h.attrsOut m a hm hq
     · obtain ⟨b0, hb0, rfl⟩ := hb
-      simpa [Attrs.update] using h.attrsOut m b0 hb0 hq
+      simpa [Attrs.update, hs, hf] using h.attrsOut m b0 hb0 hq
     · obtain ⟨_, rfl⟩ := hb
-      simp
+      exact ⟨hs, hf⟩
   · intro q hq
     rw [hasNode_addNode]
     exact Or.inl (h.nodes q hq)
+
+theorem Inv.addLabel {qs : List Val} {g : Graph L} (h : Inv sflag fflag qs g) (n : Val) (x : Val) :
+    Inv sflag fflag qs (g.addNode n { label := some x }) :=
+  h.addDeco n _ rfl rfl
 
 theorem Inv.addEdgeNone {qs : List Val} {g : Graph L} (h : Inv sflag fflag qs g) (u v : Val)
     (hu : g.hasNode u = true) (hv : g.hasNode v = true) :
@@ -358,5 +374,128 @@ theorem attrs_mem {g : Graph L} {n : Val} (h : g.hasNode n = true) : (n, g.attrs
     have : m = n := by simpa using h1
     subst this
     simpa using h2
+
+/-! ### the attribute `initial_stack` -/
+
+/-- no node carries `initial_stack`: state nodes and markers never set it -/
+def NoStack (g : Graph L) : Prop := ∀ n a, (n, a) ∈ g.nodes → a.initialStack = none
+
+theorem NoStack.addNode {g : Graph L} (h : NoStack g) (n : Val) (d : Attrs) (hd : d.initialStack = none) :
+    NoStack (g.addNode n d) := by
+  intro m a hm
+  rcases mem_addNode hm with ⟨_, hm⟩ | ⟨rfl, ⟨b0, hb0, rfl⟩ | ⟨_, rfl⟩⟩
+  · exact h m a hm
+  · simpa [Attrs.update, hd] using h m b0 hb0
+  · exact hd
+
+theorem NoStack.step {g : Graph L} (h : NoStack g) (q : Val) : NoStack (stateStep sflag fflag g q) := by
+  have h1 : NoStack (g.addNode q { isStart := some (sflag q), isFinal := some (fflag q), label := some q }) :=
+    h.addNode q _ rfl
+  unfold stateStep
+  simp only
+  split
+  · unfold addMarker
+    rw [addEdge_of_hasNode]
+    · exact h1.addNode (marker q) _ rfl
+    · rw [hasNode_addNode]; exact Or.inr rfl
+    · rw [hasNode_addNode, hasNode_addNode]; exact Or.inl (Or.inr rfl)
+  · exact h1
+
+theorem noStack_foldl (l : List Val) : ∀ (g : Graph L), NoStack g →
+    NoStack (l.foldl (stateStep sflag fflag) g) := by
+  induction l with
+  | nil => intro g h; exact h
+  | cons q l ih => intro g h; exact ih _ (h.step q)
+
+theorem noStack_statePass (l : List Val) :
+    NoStack (l.foldl (stateStep sflag fflag) ({} : Graph L)) :=
+  noStack_foldl l _ (fun _ _ hn => (List.not_mem_nil hn).elim)
+
+/-- the keys set by `addNode` on the node itself -/
+theorem set_addNode {g : Graph L} {n : Val} {d b : Attrs} (h : (n, b) ∈ (g.addNode n d).nodes) :
+    (∀ x, d.label = some x → b.label = some x) ∧
+    (∀ x, d.initialStack = some x → b.initialStack = some x) := by
+  rcases mem_addNode h with ⟨hne, _⟩ | ⟨_, ⟨b0, _, rfl⟩ | ⟨_, rfl⟩⟩
+  · exact absurd rfl hne
+  · constructor <;> intro x hx <;> simp [Attrs.update, hx]
+  · exact ⟨fun _ hx => hx, fun _ hx => hx⟩
+
+/-! ### erasing `initial_stack` -/
+
+theorem eraseStack_edges (g : Graph L) : g.eraseStack.edges = g.edges := rfl
+
+theorem hasNode_eraseStack (g : Graph L) (n : Val) : g.eraseStack.hasNode n = g.hasNode n := by
+  simp only [Graph.hasNode, Graph.eraseStack, List.any_map]
+  rfl
+
+theorem mem_eraseStack {g : Graph L} {n : Val} {b : Attrs} :
+    (n, b) ∈ g.eraseStack.nodes ↔ ∃ a, (n, a) ∈ g.nodes ∧ b = { a with initialStack := none } := by
+  simp only [Graph.eraseStack, List.mem_map, Prod.mk.injEq]
+  constructor
+  · rintro ⟨⟨m, a⟩, hm, rfl, rfl⟩
+    exact ⟨a, hm, rfl⟩
+  · rintro ⟨a, ha, rfl⟩
+    exact ⟨(n, a), ha, rfl, rfl⟩
+
+theorem Inv.eraseStack {qs : List Val} {g : Graph L} (h : Inv sflag fflag qs g) :
+    Inv sflag fflag qs g.eraseStack := by
+  refine ⟨h.edges, ?_, ?_, ?_⟩
+  · intro n b hb hq
+    obtain ⟨a, ha, rfl⟩ := mem_eraseStack.1 hb
+    exact h.attrsIn n a ha hq
+  · intro n b hb hq
+    obtain ⟨a, ha, rfl⟩ := mem_eraseStack.1 hb
+    exact h.attrsOut n a ha hq
+  · intro q hq
+    rw [hasNode_eraseStack]
+    exact h.nodes q hq
+
+theorem noStack_eraseStack (g : Graph L) : NoStack g.eraseStack := by
+  intro n b hb
+  obtain ⟨a, _, rfl⟩ := mem_eraseStack.1 hb
+  rfl
+
+/-! ### the start stack symbol read by `PDA.from_networkx` -/
+
+/-- the start stack symbol `PDA.from_networkx` reads from the nodes (`none` = an exception) -/
+def readStack (J : Json) (g : Graph (List Char)) : Option (Option Val) :=
+  if g.hasNode hiddenStack then
+    match (g.attrs hiddenStack).initialStack with
+    | some txt => (J.loads txt).map some
+    | none =>
+      if (g.attrs hiddenStack).isFinal.isSome then some none else
+      match (g.attrs hiddenStack).label with
+      | some (.str txt) => (J.loads txt.toList).map some
+      | some (.int _) => none
+      | none => none
+  else some none
+
+theorem readStack_absent (J : Json) {g : Graph (List Char)} (h : g.hasNode hiddenStack = false) :
+    readStack J g = some none := by
+  simp [readStack, h]
+
+/-- the attribute is there: it is read -/
+theorem readStack_attr (J : Json) {g : Graph (List Char)} {txt : List Char}
+    (h : ∀ b, (hiddenStack, b) ∈ g.nodes → b.initialStack = some txt) (hn : g.hasNode hiddenStack = true) :
+    readStack J g = (J.loads txt).map some := by
+  simp [readStack, hn, h _ (attrs_mem hn)]
+
+/-- no attribute, and the node is a state: no start stack symbol -/
+theorem readStack_state (J : Json) {g : Graph (List Char)}
+    (h : ∀ b, (hiddenStack, b) ∈ g.nodes → b.initialStack = none ∧ b.isFinal.isSome = true) :
+    readStack J g = some none := by
+  cases hn : g.hasNode hiddenStack with
+  | false => exact readStack_absent J hn
+  | true =>
+    have := h _ (attrs_mem hn)
+    simp [readStack, hn, this.1, this.2]
+
+/-- no attribute, the node is a decoration: its label is read (old format) -/
+theorem readStack_label (J : Json) {g : Graph (List Char)} {txt : String}
+    (h : ∀ b, (hiddenStack, b) ∈ g.nodes → b.initialStack = none ∧ b.isFinal = none ∧ b.label = some (.str txt))
+    (hn : g.hasNode hiddenStack = true) :
+    readStack J g = (J.loads txt.toList).map some := by
+  have := h _ (attrs_mem hn)
+  simp [readStack, hn, this.1, this.2.1, this.2.2]
 
 end Pfl.Nx.Lem
